@@ -223,6 +223,12 @@ class InProtocolBase(ProtocolMixin):
 
         self.validator = None
 
+    def _bytes_to_unicode(self, string):
+        try:
+            return string.decode(self.default_string_encoding)
+        except UnicodeDecodeError:
+            raise ValidationError(string)
+
     def from_bytes(self, class_, string, *args, **kwargs):
         if string is None:
             return None
@@ -305,10 +311,12 @@ class InProtocolBase(ProtocolMixin):
 
         if ser_as in ('bytes', 'bytes_le'):
             retval, = binary_decoding_handlers[encoding](string)
-        elif isinstance(string, six.binary_type):
-            retval = string.decode('ascii')
 
         try:
+            if ser_as not in ('bytes', 'bytes_le') and \
+                                           isinstance(string, six.binary_type):
+                retval = string.decode('ascii')
+
             retval = _uuid_deserialize[ser_as](retval)
         except ValueError as e:
             raise ValidationError(e)
@@ -359,8 +367,7 @@ class InProtocolBase(ProtocolMixin):
             raise ValidationError(string, "%%r: %r" % e)
 
     def decimal_from_bytes(self, cls, string):
-        return self.decimal_from_unicode(cls,
-                                    string.decode(self.default_string_encoding))
+        return self.decimal_from_unicode(cls, self._bytes_to_unicode(string))
 
     def double_from_bytes(self, cls, string):
         try:
@@ -403,7 +410,7 @@ class InProtocolBase(ProtocolMixin):
 
     def time_from_bytes(self, cls, string):
         if isinstance(string, six.binary_type):
-            string = string.decode(self.default_string_encoding)
+            string = self._bytes_to_unicode(string)
 
         return self.time_from_unicode(cls, string)
 
@@ -476,14 +483,14 @@ class InProtocolBase(ProtocolMixin):
 
     def datetime_from_bytes(self, cls, string):
         if isinstance(string, six.binary_type):
-            string = string.decode(self.default_string_encoding)
+            string = self._bytes_to_unicode(string)
 
         serialize_as = self.get_cls_attrs(cls).serialize_as
         return self._datetime_dsmap[serialize_as](cls, string)
 
     def date_from_bytes(self, cls, string):
         if isinstance(string, six.binary_type):
-            string = string.decode(self.default_string_encoding)
+            string = self._bytes_to_unicode(string)
 
         date_format = self._get_date_format(self.get_cls_attrs(cls))
         try:
@@ -548,7 +555,7 @@ class InProtocolBase(ProtocolMixin):
 
     def duration_from_bytes(self, cls, string):
         if isinstance(string, six.binary_type):
-            string = string.decode(self.default_string_encoding)
+            string = self._bytes_to_unicode(string)
 
         return self.duration_from_unicode(cls, string)
 
